@@ -394,7 +394,8 @@ func (p *parser) parseLabelPredicateAnd() (pred LabelPredicate, _ error) {
 	}
 
 	switch nextTok := p.next(); nextTok.Type {
-	case lexer.Ident:
+	case lexer.Ident, lexer.OpenParen:
+		// Juxtaposed predicate, possibly parenthesized.
 		p.unread()
 	case lexer.Comma, lexer.And:
 	case lexer.EOF:
